@@ -19,7 +19,7 @@ quiet_naunet()
 C07_THEOREMS = ["Naunet.C07.kida_roundtrip", "Naunet.C07.umist_roundtrip", "Naunet.C07.leeds_roundtrip",
                 "Naunet.C07.uclchem_roundtrip_plain", "Naunet.C07.uclchem_roundtrip_marker", "Naunet.C18.native_roundtrip",
                 "Naunet.C07.std_roundtrip", "Naunet.C07.directive_no_reaction", "Naunet.C07.data_line", "Naunet.C07.readKrome_append",
-                "Naunet.C07.late_directive", "Naunet.C07.comment_keeps_state", "Naunet.C07.markers_never_species",
+                "Naunet.C07.late_directive", "Naunet.C07.comment_keeps_state", "Naunet.C07.indented_comment_no_reaction", "Naunet.C07.markers_never_species",
                 "Naunet.C07.readFile_append", "Naunet.C07.readFile_blank", "Naunet.C07.readFile_data",
                 "Naunet.Codec.splitOnC_joinC", "Naunet.Codec.words_columns", "Naunet.Codec.words_joinC_space"]
 C18_THEOREMS = ["Naunet.C18.native_roundtrip", "Naunet.C18.second_cycle", "Naunet.C18.type_code_shared", "Naunet.C18.F15_witness", "Naunet.Codec.splitOnC_joinC",
@@ -198,7 +198,8 @@ def gen_file(rng, fmt, n, layout=None, extra_markers=()):
         if fmt != "krome" and rng.random() < 0.15:
             lines.append(rng.choice(["", "   ", "\t"]))
         if fmt == "krome" and rng.random() < 0.2:
-            lines.append(rng.choice(["# a comment", "// another", "", "#1,H,H,,H2"]))
+            lines.append(rng.choice(["# a comment", "// another", "", "#1,H,H,,H2", "   # an indented comment", "\t// a tabbed one",
+                                     "  #2,H,H,,H2"]))
         if fmt == "krome" and rng.random() < 0.12:   # directives may come anywhere; the layout may change in mid-file
             kind = rng.choice(["format", "common", "var", "hnuclei"])
             if kind == "format":
